@@ -106,6 +106,8 @@ def _check_dims_sufficient(
     y_rank = y_shape.rank()
     if e_rank is None:
         return check_result.fail("Expand output rank is unknown.")
+    if e_rank > max(x_rank, y_rank):
+        return check_result.fail("Expand adds leading dimensions that neither operand has.")
 
     for rev_i in range(e_rank):
         i = e_rank - 1 - rev_i
@@ -190,6 +192,8 @@ def _check_expand_removable(
     if expand_shape_val is not None:
         expand_shape = tuple(int(v) for v in expand_shape_val.tolist())
         expand_rank = len(expand_shape)
+        if expand_rank > max(x_rank, y_rank):
+            return check_result.fail("Expand adds leading dimensions that neither operand has.")
 
         for rev_i in range(expand_rank):
             i = expand_rank - 1 - rev_i
